@@ -35,12 +35,15 @@ def check(model, tier):
     sqlplace.r08_3_order_by_scope(ctx, rule="R11.4")
     triviality.r05_2_noop_predicates_agree(ctx, rule="R11.5")
     optional_rules.r_optional_truthiness(ctx, "R11.6", {"limit", "stop", "max_rows"}, ("sql/", "_operations/_slice.py"))
-    sqlplace.r_sort_mapping(ctx, "R11.6")
+    sqlplace.r_sort_mapping(ctx, "R11.10")
     from ..rules import merge as _merge
 
     _merge.r05_3_merged_constructors(ctx, rule="R11.7")
     _merge.r05_4_then(ctx, rule="R11.8")
     sqlplace.r_inner_calculation_name(ctx, "R11.9")
+    from ..rules import mergeeval as _mergeeval
+
+    _mergeeval.r05_9_merge_semantics(ctx, rule="R11.11")  # the Select's sort and slice slots are composed with Sort.then / Slice.then
     from ..rules.foundation import run_foundation
 
     run_foundation(ctx, "11")
